@@ -89,6 +89,10 @@ fn main() {
         "registration" => run_engine(engines::registration::RegistrationEngine::new(), mode, rest),
         "linkcc" => run_engine(engines::linkcc::LinkCcEngine::new(), mode, rest),
         "shellsim" => run_engine(engines::shellsim::ShellSim::new(), mode, rest),
+        "codec" => run_engine(engines::codec::CodecEngine::new(), mode, rest),
+        "hub" => run_engine(engines::hub::HubEngine::new(), mode, rest),
+        "reload" => run_engine(engines::reload::ReloadEngine::new(), mode, rest),
+        "reloadloop" => run_engine(engines::reload::ReloadLoopEngine::new(), mode, rest),
         _ => {
             eprintln!("unknown engine {engine}");
             std::process::exit(2)
